@@ -657,3 +657,5 @@ def run(ctx, led):
     run_rule(led, "U22", "equality halves are merged in the first semantic pass when minimisation is off", u22, ctx)
     run_rule(led, "U23", "conflict resolution always returns in the Solving state (MUST-PASS)", u23, ctx)
     run_rule(led, "U24", "retention TABLE of the recursive minimiser: only Removable predicates are dropped", u24, ctx)
+    from . import C07 as _C07c
+    run_rule(led, "U25", "an equality decision is read back in the order and arity it was written with (shared with C07-J5)", _C07c.j5, ctx)
